@@ -102,9 +102,10 @@ def gen_instance(rng: random.Random, big: bool = False,
         items[-1][0], items[-1][1] = items[0][0], items[0][1]   # equal items
     cap = 60 if big else 14
     rr = rng.random()
-    if big and rr < 0.04:
-        # n_items + 1 at the int8 boundary
-        total = rng.choice([125, 126, 127, 128])
+    if rr < (0.04 if big else 0.012):
+        # n_items + 1 at the int8 boundary (and beyond: bin ids and the index
+        # windows of encoding 2 must hold counts up to n_items)
+        total = rng.choice([125, 126, 127, 128, 130, 140])
         per = max(1, total // len(items))
         for it in items:
             it[2] = per
